@@ -148,6 +148,11 @@ func (vs *ValidatorStore) ExecuteAllegationTracker(ctx *ValidatorContext, active
 
 		for i := range ar.Votes {
 			vote := ar.Votes[i]
+			// the threshold is a share of the validators that are active NOW: a vote only counts while
+			// its voter is still one of them (it may have left the set or been frozen since it voted)
+			if !ctx.EvidenceStore.IsActiveValidator(vote.Address) {
+				continue
+			}
 			switch vote.Choice {
 			case evidence.YES:
 				yesCount++
